@@ -44,6 +44,7 @@ RULE = (
     "metadata (__name__, __doc__, __wrapped__) for every helper decorator under every combination of its options (138 configurations) and every stacked pair, also after the outer decorator had been applied to the plain function before; consecutive calls served by one pooled worker thread from callers with an empty / own context; non-trivial = the call "
     "passes keyword / variadic arguments, raises, or is made inside a scope"
 )
+RULE += ' Rounds 10-13: a long-lived wrapper (10-40 (100) consecutive calls, never on the loop thread); results with many digits / large size; the loop= parameter; methods looked up on several / equal instances within one step.'
 ASSUMPTIONS = [
     "worker threads are gated: a submitted call runs on a real separate thread only when the "
     "controller releases it and is joined before the loop continues (no unowned races)",
